@@ -161,3 +161,17 @@ reg(Check("C07", "model_checking",
           technique="explicit-state model checking over the real handlers (BFS by replay, step oracle)",
           engine="E2 xstate", claimed=False,
           parts=[Part("acl", SRV, "^TestVerifC07Acl$", instr=True, gomaxprocs=16, deadline=(300, 2400))]))
+
+reg(Check("C19", "exploration",
+          "query parser: every string of length <=6 (quick) / <=7 (thorough) over {a,b,1,@,space,tab,comma,quote,colon,e-acute} x "
+          "{validators none, email+tel} x {login rewrite off,on} against a grammar-driven reference parser; rewriteTag: all tokens <=5 "
+          "over a 10-symbol alphabet; normalizeTags: all lists <=3 from a 16-element menu x 2 limits; restricted-tag filters: all pairs "
+          "of <=3-subsets of 9 tags x 4 namespace configurations. non-trivial = malformed or multi-term queries / rewritten tokens / multi-tag lists",
+          ["reference grammar written from docs/API.md; validity and rewriting of a single term is delegated to the real rewriteTag, "
+           "whose own rules are enumerated separately", "tag histories through a live fnd/grp topic are covered by the C19 'fnd' part when present"],
+          text="Bounded-exhaustive enumeration of query strings and tag lists against reference implementations.",
+          note="strings longer than the bound are not enumerated",
+          technique="bounded-exhaustive enumeration against a reference model", engine="E4 enum", claimed=False,
+          parts=[Part("query", SRV, "^TestVerifC19Query$", instr=True, shards=(10, 10), deadline=(300, 2400)),
+                 Part("rewrite", SRV, "^TestVerifC19RewriteTag$", instr=True, shards=(10, 10)),
+                 Part("tags", SRV, "^TestVerifC19Tags$", instr=True)]))
